@@ -50,7 +50,10 @@ EndRequest(c, m, e) ==
   ELSE IF e.res = "ok" THEN
        IF e.d = c.expect THEN m ELSE Fail(m, "L2/request-returned-a-reply-the-peer-did-not-send")
   ELSE IF e.res \notin {"Missing", "ConnErr", "Timeout"} THEN Fail(m, "L1/loss-surfaced-as-unexpected-exception")
+  \* (only when the loss is the FIRST fault of this request: a peer that stays silent past the request timeout and
+  \* drops the connection afterwards has already cost one retry by the time the loss is noticed)
   ELSE IF c.retries >= 1 /\ m.cutAt # -1 /\ m.restartAt # -1 /\ m.restartAt <= m.cutAt + c.window
+          /\ (m.tmo = -1 \/ m.cutAt < m.t0 + m.tmo)
        THEN Fail(m, "L3/no-reply-although-the-peer-accepted-again-and-a-retry-was-configured")
   ELSE m
 
